@@ -10,6 +10,8 @@ pub trait HistT: Clone + Sized {
     const LEN: usize;
     const NAME: &'static str;
     fn from_ranges(v: Vec<f64>) -> Result<Self, &'static str>;
+    /// the same list through an iterator that does not know its length (size_hint lower bound 0)
+    fn from_ranges_lazy(v: Vec<f64>) -> Result<Self, &'static str>;
     fn with_const_width(a: f64, b: f64) -> Self;
     fn find(&self, x: f64) -> Result<usize, ()>;
     fn add(&mut self, x: f64) -> Result<(), ()>;
@@ -127,7 +129,19 @@ fn do_build<H: HistT>(line: &Value, want: &HWant, rep: &mut Report) {
     let list = toks(&line["list"]);
     let res = &line["res"];
     let got = catch_unwind(AssertUnwindSafe(|| H::from_ranges(list.clone())));
-    rep.evaluations += 1;
+    rep.evaluations += 2;
+    // the list is the list, whatever kind of iterator delivers it: the same call through an
+    // iterator that does not know its length must give the same verdict and the same edges
+    let lazy = catch_unwind(AssertUnwindSafe(|| H::from_ranges_lazy(list.clone())));
+    match (&got, &lazy) {
+        (Ok(Ok(a)), Ok(Ok(b))) if same_bits(&a.ranges(), &b.ranges()) => {}
+        (Ok(Err(a)), Ok(Err(b))) if a == b => {}
+        (Err(_), Err(_)) => {}
+        _ => viol(rep, "C12", H::NAME, line, "from_ranges", format!(
+            "from_ranges on a Vec and on a length-unaware iterator over the same values disagree: {:?} vs {:?}",
+            got.as_ref().map(|r| r.as_ref().map(|h| h.ranges()).map_err(|e| *e)).map_err(|_| "panic"),
+            lazy.as_ref().map(|r| r.as_ref().map(|h| h.ranges()).map_err(|e| *e)).map_err(|_| "panic"))),
+    }
     match got {
         Err(_) => viol(rep, "C12", H::NAME, line, "from_ranges", "from_ranges panicked".into()),
         Ok(Ok(h)) => {
@@ -337,6 +351,37 @@ fn do_cw<H: HistT>(line: &Value, want: &HWant, rep: &mut Report) {
         }
         if h.bins().iter().any(|&c| c != 0) {
             viol(rep, "C12", H::NAME, line, "with_const_width", "non-zero counts in a new histogram".into());
+        }
+    }
+    // ranges only a few ulps wide (the step is far below the spacing of the edges' magnitude): the
+    // edges must still be non-decreasing, start at `start` and stay within 4 ulps of the ideal value
+    for base in [a, b, 7.5, 12.751705525168683, -43074810.26659697] {
+        for k in [-60, 0, 20] {
+            let start = base * p2(k);
+            if start == 0.0 || !start.is_finite() {
+                continue;
+            }
+            for width_ulps in [1u64, 2, 3, 5, 7, 11, 39, 100, 299, 1000] {
+                let end = if start > 0.0 { f64::from_bits(start.to_bits() + width_ulps) } else { f64::from_bits(start.to_bits() - width_ulps) };
+                rep.replays += 1;
+                let h = H::with_const_width(start, end);
+                let r = h.ranges();
+                let scale = start.abs().max(end.abs());
+                rep.evaluations += r.len() as u64 + 1;
+                if r[0] != start {
+                    viol(rep, "C12", H::NAME, line, "with_const_width", format!("narrow range: first edge {:e} is not start {:e}", r[0], start));
+                }
+                if let Some(i) = (0..r.len() - 1).find(|&i| !(r[i] <= r[i + 1])) {
+                    viol(rep, "C12", H::NAME, line, "with_const_width", format!("with_const_width({:e}, {:e}): edges not non-decreasing at {}: {:e} > {:e}", start, end, i, r[i], r[i + 1]));
+                }
+                for (i, &e) in r.iter().enumerate() {
+                    let reference = start + (end - start) * (i as f64 / H::LEN as f64);
+                    if (e - reference).abs() > 4.0 * 2.0 * U * scale + 2.0 * 2.0 * U * scale {
+                        viol(rep, "C12", H::NAME, line, "with_const_width", format!("with_const_width({:e}, {:e}): edge {} = {:e} but start + i*(end-start)/LEN = {:e}", start, end, i, e, reference));
+                        break;
+                    }
+                }
+            }
         }
     }
     // ranges that straddle zero almost, but not exactly, symmetrically: an inner edge is tiny
